@@ -34,10 +34,13 @@ pub fn classify_object(j: &J) -> Class {
 	if j.has_dup_keys_top() {
 		return Class::Outside("duplicate member names");
 	}
-	if !j.numbers_in_range() {
+	// (the params member is handed on as raw text, so neither limit applies to what is inside it)
+	let J::Obj(members) = j else { unreachable!() };
+	let besides_params = J::Obj(members.iter().filter(|(k, _)| k != "params").cloned().collect());
+	if !besides_params.numbers_in_range() {
 		return Class::Outside("number outside serde_json's range");
 	}
-	if j.depth() > 100 {
+	if besides_params.depth() > 100 {
 		return Class::Outside("nesting deeper than serde_json's recursion limit");
 	}
 	let version_ok = j.get("jsonrpc") == Some(&J::str("2.0"));
